@@ -1,4 +1,5 @@
 import CocaVerif.Model.JavaFull
+import CocaVerif.Model.JavaIdent
 import CocaVerif.Base.J
 open Lean
 namespace CocaVerif.Drv.JavaFull
@@ -67,22 +68,58 @@ def encDS (d : DS) : Json :=
               ("Functions", mkArr (fs.map fun x => encFn x.2)), ("Annotations", mkArr (d.annos.map encAnno)),
               ("FunctionCalls", mkArr (d.calls.map encCall)), ("Imports", mkStrs d.imports)]
 
-def step (st : FSt) (j : Json) : FSt × Json :=
+def decIP (j : Json) : JavaIdent.IP :=
+  { startLine := intD j "startLine", startCol := intD j "startCol", stopLine := intD j "stopLine", stopCol := intD j "stopCol" }
+
+def optAnno (j : Json) (k : String) : Option Anno :=
+  match j.getObjVal? k with
+  | .ok (.obj _) => some (Dec.anno (obj j k))
+  | _ => none
+
+def decIEv (j : Json) : JavaIdent.IEv :=
+  match strD j "e" with
+  | "pkg" => .pkg (strD j "name")
+  | "imp" => .imp (strD j "name")
+  | "anno" => .anno (Dec.anno (obj j "anno"))
+  | "enterClass" => .enterClass (strD j "name") (optStr j "ext") (strs j "impls")
+  | "enterInterface" => .enterInterface (strD j "name")
+  | "enterCtor" => .enterCtor (strD j "name") (decIP j)
+  | "exitCtor" => .exitCtor
+  | "enterMethod" => .enterMethod (strD j "name") (strD j "ret") (optAnno j "firstAnno") (strs j "mods") (decIP j)
+  | "exitMethod" => .exitMethod
+  | "interfaceMethod" => .interfaceMethod (strD j "name") (strD j "ret") (optAnno j "firstAnno") (decIP j)
+  | "exitInterfaceMethod" => .exitInterfaceMethod
+  | "returnExpr" => .returnExpr (strD j "text")
+  | _ => .exitType
+
+/-- the process state: the full listener's and the identifier listener's package variables -/
+structure PSt where
+  full : FSt := {}
+  ident : JavaIdent.ISt := {}
+
+def step (st : PSt) (j : Json) : PSt × Json :=
   let units := (arr j "units").map fun u => (strD u "path", (arr u "events").map decEv)
+  let iunits := (arr j "units").map fun u => (strD u "path", (arr u "ievents").map decIEv)
+  let pathsOf : Json → List String := fun r => match r with
+    | Json.arr a => a.toList.filterMap fun p => match p with
+      | Json.str s => some s
+      | _ => none
+    | _ => []
   if strD j "op" == "fullmulti" then
-    -- C07: the runs of one process, each an ordered list of paths of `units`
-    let pathsOf : Json → List String := fun r => match r with
-      | Json.arr a => a.toList.filterMap fun p => match p with
-        | Json.str s => some s
-        | _ => none
-      | _ => []
-    let runs := (arr j "runs").map fun r => (pathsOf r).filterMap fun s => units.find? (·.1 == s)
-    let r := runs.foldl (fun (acc : List Json × FSt) files =>
-      let x := runFiles acc.2 (strs j "identKeys") files
-      (acc.1 ++ [Json.mkObj [("nodes", mkArr (x.1.map encDS))]], x.2)) ([], st)
+    -- C07: the real harness first runs the identifier pass over the whole tree (identifier set), then per run both passes
+    let i0 := JavaIdent.runFiles st.ident (iunits.map (·.2))
+    let runs := (arr j "runs").map pathsOf
+    let r := runs.foldl (fun (acc : List Json × PSt) run =>
+      let files := run.filterMap fun s => units.find? (·.1 == s)
+      let ifiles := run.filterMap fun s => (iunits.find? (·.1 == s)).map (·.2)
+      let xi := JavaIdent.runFiles acc.2.ident ifiles
+      let x := runFiles acc.2.full (strs j "identKeys") files
+      (acc.1 ++ [Json.mkObj [("nodes", mkArr (x.1.map encDS)), ("identifiers", mkArr (xi.1.map encDS))]], { full := x.2, ident := xi.2 }))
+      ([], { st with ident := i0.2 })
     (r.2, Json.mkObj [("runs", mkArr r.1)])
   else
-    let r := runFiles st (strs j "identKeys") units
-    (r.2, Json.mkObj [("nodes", mkArr (r.1.map encDS))])
+    let xi := JavaIdent.runFiles st.ident (iunits.map (·.2))
+    let r := runFiles st.full (strs j "identKeys") units
+    ({ full := r.2, ident := xi.2 }, Json.mkObj [("nodes", mkArr (r.1.map encDS)), ("identifiers", mkArr (xi.1.map encDS))])
 
 end CocaVerif.Drv.JavaFull
